@@ -349,8 +349,14 @@ func recSpeciation(args []string) int {
 		evolvedOpts = append(evolvedOpts, opts)
 
 		// ReadPopulation of the evolved population (possibly under another threshold / method)
+		// (both file layouts: genome by genome, and by species - there the organisms arrive best first within each species, under
+		// species headers that are comments to the reader; the evolved organisms carry fitness values, so the order differs)
 		var buf bytes.Buffer
-		if err := pop.Write(&buf); err == nil {
+		write := pop.Write
+		if i%2 == 1 {
+			write = pop.WriteBySpecies
+		}
+		if err := write(&buf); err == nil {
 			ropts := sc.options()
 			ropts.CompatThreshold = opts.CompatThreshold * []float64{1, 0.5, 2}[i%3]
 			if i%2 == 0 {
